@@ -18,7 +18,7 @@ use walkdir::WalkDir;
 
 use crate::ocfl::consts::*;
 use crate::ocfl::digest::HexDigest;
-use crate::ocfl::error::{MultiError, Result, RocflError};
+use crate::ocfl::error::{not_found_path, MultiError, Result, RocflError};
 use crate::ocfl::inventory::Inventory;
 use crate::ocfl::lock::LockManager;
 use crate::ocfl::store::fs::FsOcflStore;
@@ -405,9 +405,31 @@ impl OcflRepo {
             self.get_staging()?
                 .get_object_file(object_id, path, VersionRef::Head, sink)
         } else {
-            // The content exists in the main repo
-            self.store
-                .get_object_file(object_id, path, inventory.head.previous()?.into(), sink)
+            // The content exists in the main repo. The logical path may be new or changed in the
+            // staged version, so the content is located through a committed version that
+            // references the same digest.
+            let digest = inventory
+                .head_version()
+                .lookup_digest(path)
+                .ok_or_else(|| not_found_path(object_id, inventory.head, path))?;
+
+            for (version_num, version) in inventory.versions.iter().rev().skip(1) {
+                let committed_path = version
+                    .state_iter()
+                    .find(|(_, d)| d.as_ref() == digest.as_ref())
+                    .map(|(p, _)| p);
+
+                if let Some(committed_path) = committed_path {
+                    return self.store.get_object_file(
+                        object_id,
+                        committed_path,
+                        (*version_num).into(),
+                        sink,
+                    );
+                }
+            }
+
+            Err(not_found_path(object_id, inventory.head, path))
         }
     }
 
